@@ -125,11 +125,11 @@ Section Oracles.
     vars <- environment_variables ;; parse_marker_var_in vars s.
 
   (* parseMarkerOp *)
-  Fixpoint first_op (ops : list N) (s : bytes) : option (N * bytes) :=
+  Fixpoint first_op (ops : list (N * bytes)) (s : bytes) : option (N * bytes) :=
     match ops with
     | [] => None
-    | o :: r =>
-        match strip_prefix (op_string o) s with
+    | (o, t) :: r =>
+        match strip_prefix t s with
         | Some rest => Some (o, rest)
         | None => first_op r s
         end
@@ -142,7 +142,7 @@ Section Oracles.
 
   Definition parse_marker_op (s0 : bytes) : res (N * bytes) :=
     let s := trim_left s0 in
-    match first_op marker_ops_by_length s with
+    match first_op marker_op_trial s with
     | Some r => Ok r
     | None =>
         match strip_prefix kw_not s with
